@@ -235,19 +235,28 @@ def history_case(ctx, h, nsteps, lines, reals):
                         names.append((numof[mn], mn))
                     emit(f'addop {ci} {numof[mn]}', compare=(oi == len(ops) - 1))   # extend() is one step of the code
             elif k < .45 and len(c.eOperations):
-                op = rng.choice(list(c.eOperations))
-                how = rng.choice(['remove', 'pop', 'del'])
-                idx = list(c.eOperations).index(op)
+                cur = list(c.eOperations)
+                op = rng.choice(cur)
+                how = rng.choice(['remove', 'pop', 'del', 'clear', 'delslice'])
+                idx = cur.index(op)
+                gone = [op]
                 if how == 'remove':
                     c.eOperations.remove(op)
                 elif how == 'pop':
                     c.eOperations.pop(idx)
-                else:
+                elif how == 'del':
                     del c.eOperations[idx]
-                log.append(f'{c.name}.eOperations.{how} {op.name}')
-                mn = op.name + '_' if keyword.iskeyword(op.name) else op.name
-                attached.pop((ci, mn), None)
-                emit(f'removeop {ci} {numof[mn]}')
+                elif how == 'clear':
+                    gone = cur
+                    c.eOperations.clear()
+                else:
+                    gone = cur
+                    del c.eOperations[:]
+                log.append(f'{c.name}.eOperations.{how} {[x.name for x in gone]}')
+                for n_, x in enumerate(gone):
+                    mn = x.name + '_' if keyword.iskeyword(x.name) else x.name
+                    attached.pop((ci, mn), None)
+                    emit(f'removeop {ci} {numof[mn]}', compare=(n_ == len(gone) - 1))
             elif k < .6:
                 cands = [x for x in classes if x is not c and x not in c.eSuperTypes and c not in supers_of(x)]
                 if not cands:
